@@ -166,7 +166,7 @@ func genServerSeq(r *rand.Rand, steps int, variant int) []string {
 		g.do(fmt.Sprintf("setcfg 0200000000fe %08x 2", sip))
 	}
 	plen := []int{24, 24, 28, 20, 16, 30}[r.Intn(6)]
-	g.lease = []int{60, 600, 3600, 86400}[r.Intn(4)]
+	g.lease = []int{60, 600, 3600, 86400, 0, 1}[r.Intn(6)]
 	dns := []string{"-", "08080808", "08080808,08080404", "01010101,09090909", "08080808,08080404,01010101"}[r.Intn(5)]
 	pool1 := fmt.Sprintf("addpool 1 0a000100/%d 0a000101 %s %d %d %d", plen, dns, g.lease, r.Intn(3)*100, 1+r.Intn(3))
 	pool2 := fmt.Sprintf("addpool 2 0a000200/24 0a000201 08080808 %d 0 2", g.lease)
@@ -264,6 +264,9 @@ func genServerSeq(r *rand.Rand, steps int, variant int) []string {
 			g.probe(cs)
 		case x < 16:
 			n := []int{1, 30, g.lease / 2, g.lease - 1, g.lease, g.lease + 1, 2 * g.lease}[r.Intn(7)]
+			if n < 0 {
+				n = 0
+			}
 			g.do(fmt.Sprintf("tick %d", n))
 			if r.Intn(3) == 0 {
 				g.do(fmt.Sprintf("tickms %d", []int{100, 400, 600, 900}[r.Intn(4)]))
@@ -283,7 +286,7 @@ func genServerSeq(r *rand.Rand, steps int, variant int) []string {
 			}
 		case x < 19: // QinQ entries are written through the Loader API (no code path of pkg/dhcp sets Lease.STag/CTag)
 			if r.Intn(2) == 0 {
-				g.do(fmt.Sprintf("vlanadd 100 %d 1 0a00010%x %d", []int{0, 200}[r.Intn(2)], 3+r.Intn(4), 946684800+int64(r.Intn(2*g.lease))))
+				g.do(fmt.Sprintf("vlanadd 100 %d 1 0a00010%x %d", []int{0, 200}[r.Intn(2)], 3+r.Intn(4), 946684800+int64(r.Intn(2*g.lease+1))))
 			} else {
 				g.do(fmt.Sprintf("vlandel 100 %d", []int{0, 200}[r.Intn(2)]))
 			}
